@@ -8,186 +8,18 @@
 From Coq Require Import ZArith List Bool QArith Qcanon Lia.
 From Batchie Require Import Lib.Sexp Lib.Num Lib.PyRt Model.Train Model.Downstream Proofs.C04Train Proofs.C04Down.
 From Batchie Require Model.Scores Model.Policy Model.Gibbs Model.DistMat Model.Cli.
-From Batchie Require Generated.SrcScoring Generated.SrcScoringPolicy Generated.SrcDistMat Generated.SrcGibbs Generated.SrcTrain
-  Generated.SrcCli.
-From Batchie Require Proofs.C06Source Proofs.C06SourceCliScores Proofs.C07SourcePipeline Proofs.C07SourceCli Proofs.C16SourceSelect
-  Proofs.C04Source Proofs.C04SourceCli.
+From Batchie Require Export Proofs.C04DownSrc_Train Proofs.C04DownSrc_Dist Proofs.C04DownSrc_Scores Proofs.C04DownSrc_Policy
+  Proofs.C04DownSrc_Cli.
 Import ListNotations.
 Open Scope Z_scope.
 
-Lemma res_map_all_ext {A B} (f g : A -> result B) (l : list A) : (forall x, f x = g x) -> res_map_all f l = res_map_all g l.
-Proof. intros H. induction l as [|a l IH]; [reflexivity|]. cbn [res_map_all]. now rewrite H, IH. Qed.
-
-(* ================================================================ in-process stages *)
-
-(* ---- training: the translated add_observations around the translated SparseDrugCombo._add_observations, on a fresh
-   wrapped object, handed the observed subset (train_model.main's call) ---- *)
-Definition src_stage_train (orc : oracle) (r32 : Qc -> oval) (rows : list trow) : result legacy :=
-  match train_input rows with
-  | Some o => SrcTrain.src_add_observations legacy (SrcTrain.src_sdc_add_observations orc r32) (legacy_of []) o
-  | None => Ok (legacy_of [])
-  end.
-
-Lemma src_stage_train_is_model orc r32 rows :
-  src_stage_train orc r32 rows = dor t <- train_sdc orc r32 rows; Ok (legacy_of t).
-Proof.
-  unfold src_stage_train, train_sdc. destruct (train_input rows) as [o|]; [|reflexivity].
-  apply C04Source.src_sdc_add_is_model.
-Qed.
-
-Lemma src_stage_train_noninterference orc r32 s1 s2 : same_except_masked s1 s2 ->
-  src_stage_train orc r32 s1 = src_stage_train orc r32 s2.
-Proof. intros H. rewrite !src_stage_train_is_model. now rewrite (train_sdc_noninterference orc r32 s1 s2 H). Qed.
-
-(* the same for SparseDrugComboInteraction: (single-effect lookup, wrapped object) after train_model.main's training call *)
-Definition src_stage_train_int (orc : oracle) (r32 : Qc -> oval) (arity : nat) (rows : list trow) : result (lookup * legacy) :=
-  match train_input rows with
-  | Some o => SrcTrain.src_add_observations (lookup * legacy)
-                (fun self d => SrcTrain.src_int_add_observations orc r32 arity (fst self) (snd self) d) ([], legacy_of []) o
-  | None => Ok ([], legacy_of [])
-  end.
-
-Lemma src_stage_train_int_is_model orc r32 arity rows :
-  src_stage_train_int orc r32 arity rows
-  = dor s <- train_int orc r32 true true true arity rows; Ok (i_lookup s, legacy_of (i_train s)).
-Proof.
-  unfold src_stage_train_int, train_int. destruct (train_input rows) as [o|]; [|reflexivity].
-  exact (C04Source.src_int_add_is_model orc r32 arity istate0 o).
-Qed.
-
-(* ... so whatever the interaction sampler and its predictions compute from the trained object (its Gibbs blocks read the wrapped
-   lists, predict_viability the lookup frozen here) is computed from equal inputs *)
-Lemma src_stage_train_int_noninterference orc r32 arity s1 s2 : same_except_masked s1 s2 ->
-  src_stage_train_int orc r32 arity s1 = src_stage_train_int orc r32 arity s2.
-Proof.
-  intros H. rewrite !src_stage_train_int_is_model.
-  now rewrite (train_int_noninterference orc r32 true true true arity s1 s2 H).
-Qed.
-
-(* ---- the sampler: the translated mcmc_step (its order of the thirteen block calls) with ANY block runner that is given
-   the stored data - in particular C08's translated blocks `C08SourceObj.src_run flags g d orc` ---- *)
-Definition legacy_data (w : legacy) : option Gibbs.data :=
-  match all_some (map fin_of (lg_y w)) with
-  | Some ys => Some {| Gibbs.d_y := ys; Gibbs.d_cl := lg_cline w; Gibbs.d_dd1 := lg_dd1 w; Gibbs.d_dd2 := lg_dd2 w |}
-  | None => None
-  end.
-
-Lemma legacy_data_of st : legacy_data (legacy_of st) = gibbs_data st.
-Proof. unfold legacy_data, gibbs_data, legacy_of. cbn [lg_y lg_cline lg_dd1 lg_dd2]. rewrite map_map. reflexivity. Qed.
-
-Fixpoint src_sweeps (run : Gibbs.data -> Gibbs.blk -> Gibbs.st -> Gibbs.gprog Gibbs.st) (d : Gibbs.data) (nsteps : Z)
-    (s : Gibbs.st) (vals : list (list Gibbs.val)) : option (list Gibbs.st) :=
-  match vals with
-  | [] => Some []
-  | vs :: rest =>
-      match snd (Gibbs.run_prog (Gibbs.to_prog (SrcGibbs.src_mcmc_step (run d) nsteps s)) vs) with
-      | Some s' => match src_sweeps run d (nsteps + 1) s' rest with Some r => Some (s' :: r) | None => None end
-      | None => None
-      end
-  end.
-
-Definition src_stage_thetas run orc r32 (s0 : Gibbs.st) (vals : list (list Gibbs.val)) (rows : list trow)
-  : result (list Gibbs.st) :=
-  dor w <- src_stage_train orc r32 rows;
-  match legacy_data w with
-  | None => Err 3
-  | Some d => match src_sweeps run d 0 s0 vals with Some th => Ok th | None => Err 9 end
-  end.
-
-Lemma src_stage_thetas_noninterference run orc r32 s0 vals s1 s2 : same_except_masked s1 s2 ->
-  src_stage_thetas run orc r32 s0 vals s1 = src_stage_thetas run orc r32 s0 vals s2.
-Proof. intros H. unfold src_stage_thetas. now rewrite (src_stage_train_noninterference orc r32 s1 s2 H). Qed.
-
-(* the data the sampler is run on are the model's training trips of the observed rows *)
-Lemma src_stage_thetas_data run orc r32 s0 vals rows :
-  src_stage_thetas run orc r32 s0 vals rows =
-  dor t <- train_sdc orc r32 rows;
-  match gibbs_data t with
-  | None => Err 3
-  | Some d => match src_sweeps run d 0 s0 vals with Some th => Ok th | None => Err 9 end
-  end.
-Proof.
-  unfold src_stage_thetas. rewrite src_stage_train_is_model.
-  destruct (train_sdc orc r32 rows) as [t|e]; cbn [res_bind]; [|reflexivity]. now rewrite legacy_data_of.
-Qed.
-
-(* ---- distance: calculate_pairwise_distance_matrix_on_predictions per chunk, save, load, concat, to_dense (C07's
-   src_pipeline), the prediction of a posterior sample being ANY function of the sample and the rows' ids ---- *)
-Section Dist.
-Variables (V : Type) (vzero : V) (visz : V -> bool) (T : Type) (dflt : T).
-Variable predict : T -> list (Z * list Z) -> list Qc.
-Variable metric : list Qc -> list Qc -> V.
-
-Definition src_stage_dist (th : list T) (rows : list trow) (c : Z) (order : list Z) : result (list (list V)) :=
-  C07SourcePipeline.src_pipeline V vzero visz T (list Qc) (fun i => nth (Z.to_nat i) th dflt)
-    (fun t => predict t (pred_rows_of rows)) metric (length th) c order.
-
-Lemma src_stage_dist_noninterference th s1 s2 c order : same_except_masked s1 s2 ->
-  src_stage_dist th s1 c order = src_stage_dist th s2 c order.
-Proof. intros H. unfold src_stage_dist. now rewrite (proj1 (proj2 (proj2 (views_noninterference s1 s2 H)))). Qed.
-End Dist.
-
-(* ---- scores: score_chunk per chunk, save, load, ChunkedScoresHolder.concat ---- *)
-Definition src_stage_scores (scorer : Scores.scorer_fn) (rows : list trow) (rng : option Scores.rng_t) (batch : list Z)
-    (n : Z) (order : list Z) : result Scores.holder :=
-  dor hs <- res_map_all (fun k =>
-              dor h <- SrcScoring.src_score_chunk scorer (scores_screen_of rows) rng n k (Some batch);
-              Ok (Scores.h_load (Scores.h_save h))) order;
-  SrcScoring.src_concat hs.
-
-Lemma src_stage_scores_noninterference scorer s1 s2 rng batch n order : same_except_masked s1 s2 ->
-  src_stage_scores scorer s1 rng batch n order = src_stage_scores scorer s2 rng batch n order.
-Proof. intros H. unfold src_stage_scores. now rewrite (proj1 (views_noninterference s1 s2 H)). Qed.
-
-Lemma src_stage_scores_is_model (V : Type) (scorer : list Gibbs.st -> list (list V) -> Scores.scorer_fn) c th dm rows rng :
-  src_stage_scores (scorer th dm) rows rng (lc_batch c) (lc_schunks c) (lc_sorder c)
-  = loop_scores V scorer c th dm (downstream_input rows).
-Proof.
-  unfold src_stage_scores, loop_scores. rewrite scores_screen_factors.
-  erewrite res_map_all_ext.
-  2: { intros k. rewrite C06Source.src_score_chunk_is_model.
-       instantiate (1 := fun k => dor ps <- Scores.score_chunk (dn_scores_screen (downstream_input rows)) (lc_batch c) (lc_schunks c) k;
-                                  dor h <- Scores.chunk_holder_of_answer ps (scorer th dm ps);
-                                  Ok (Scores.h_load (Scores.h_save h))).
-       cbv beta. destruct (Scores.score_chunk _ _ _ _) as [ps|e]; cbn [res_bind]; reflexivity. }
-  destruct (res_map_all _ (lc_sorder c)) as [hs|e]; cbn [res_bind]; [apply C06Source.src_concat_is_model|reflexivity].
-Qed.
-
-(* ---- selection without a policy / with an arbitrary policy function (C06's translation) ---- *)
-Definition src_stage_select (policy : option Scores.policy_t) (h : Scores.holder) (rows : list trow) (batch : list Z)
-    (rng : option Scores.rng_t) : result (option Z) :=
-  dor r <- SrcScoring.src_select_next_plate h (scores_screen_of rows) policy (Some batch) rng;
-  Ok (option_map Scores.p_id r).
-
-Lemma src_stage_select_is_model policy h rows batch rng :
-  src_stage_select policy h rows batch rng = Scores.select_next policy (dn_scores_screen (downstream_input rows)) batch h.
-Proof.
-  unfold src_stage_select. rewrite C06Source.src_select_next_plate_is_model, scores_screen_factors.
-  destruct (Scores.select_next _ _ _ _) as [[i|]|e]; reflexivity.
-Qed.
-
-Lemma src_stage_select_noninterference policy h s1 s2 batch rng : same_except_masked s1 s2 ->
-  src_stage_select policy h s1 batch rng = src_stage_select policy h s2 batch rng.
-Proof. intros H. unfold src_stage_select. now rewrite (proj1 (views_noninterference s1 s2 H)). Qed.
-
-(* ---- selection with KPerSamplePlatePolicy(k) (C16's translation of select_next_plate; the policy's method is C16's
-   filter_eligible = the translated filter_eligible_plates): a Plate is (id, sample ids of its rows), is_observed the
-   conjunction of its rows' mask bits ---- *)
-Definition observed_in (sp : list Policy.splate) (p : Policy.plate) : bool :=
-  match find (fun q => Policy.plate_id (fst q) =? Policy.plate_id p) sp with
-  | Some q => snd q
-  | None => false
-  end.
-
-Definition src_stage_select_k (k : Z) (h : Scores.holder) (rows : list trow) (batch : list Z) (rng : option Policy.rng_t)
-  : result (option Z) :=
-  let sp := policy_plates_of rows in
-  dor r <- SrcScoringPolicy.src_select_next_plate_k (observed_in sp) (Scores.h_slots h) (map fst sp) (Some k) (Some batch) rng;
-  Ok (option_map Policy.plate_id r).
-
-Lemma src_stage_select_k_noninterference k h s1 s2 batch rng : same_except_masked s1 s2 ->
-  src_stage_select_k k h s1 batch rng = src_stage_select_k k h s2 batch rng.
-Proof. intros H. unfold src_stage_select_k. now rewrite (proj1 (proj2 (views_noninterference s1 s2 H))). Qed.
+(* pieces (failure isolation: one file per stage, each importing only the link proofs of its own functions):
+     C04DownSrc_Train.v   training (SparseDrugCombo, SparseDrugComboInteraction) and the sampler
+     C04DownSrc_Dist.v    distance pipeline (C07)
+     C04DownSrc_Scores.v  score_chunk / concat / select_next_plate (C06)
+     C04DownSrc_Policy.v  select_next_plate with KPerSamplePlatePolicy (C16)
+     C04DownSrc_Cli.v     the four main() functions
+   this file: the whole iteration composed of them. *)
 
 (* ---- the whole iteration from the translations ---- *)
 Section SrcLoop.
@@ -226,127 +58,3 @@ Proof.
 Qed.
 End SrcLoop.
 
-(* ================================================================ the four command-line steps *)
-(* a file system: what Screen.load_h5 yields at a path, as id-level rows *)
-Definition screen_fs : Type := Cli.path -> result (list trow).
-Definition fs_agree (fs1 fs2 : screen_fs) : Prop :=
-  forall p, match fs1 p, fs2 p with
-            | Ok s1, Ok s2 => same_except_masked s1 s2
-            | Err a, Err b => a = b
-            | _, _ => False
-            end.
-
-Lemma fs_agree_load {A} (f : list trow -> A) (fs1 fs2 : screen_fs) :
-  (forall s1 s2, same_except_masked s1 s2 -> f s1 = f s2) -> fs_agree fs1 fs2 ->
-  forall p, (dor s <- fs1 p; Ok (f s)) = (dor s <- fs2 p; Ok (f s)).
-Proof.
-  intros Hf H p. specialize (H p). destruct (fs1 p) as [a|a], (fs2 p) as [b|b]; cbn [res_bind]; try contradiction.
-  - now rewrite (Hf a b H).
-  - now subst.
-Qed.
-
-(* ---- train_model.main: the translated wrapper over ANY library whose screen loader is the file system, whose
-   subset_observed is Train.train_input and whose ExperimentSpace.from_screen reads the rows' ids; model class, sampler,
-   holder arbitrary ---- *)
-Definition tm_lib_fs (Sp Pa Mo Th : Type) (fs : screen_fs) (from_ids : list (Z * list Z) -> result Sp)
-    (set_space : Pa -> Sp -> Pa) (construct : Pa -> result Mo) (new_holder : Z -> result Th)
-    (add_observations : Mo -> list trow -> result Mo)
-    (sample : Mo -> Th -> Z -> option Z -> option Z -> option Z -> option Z -> bool -> result Th)
-  : Cli.tm_lib (list trow) (list trow) Sp Pa Mo Th :=
-  Cli.mk_tm_lib fs (fun s => from_ids (pred_rows_of s)) set_space construct new_holder train_input add_observations sample.
-
-Lemma src_cli_train_model_noninterference Sp Pa Mo Th fs1 fs2 from_ids set_space construct new_holder add_obs sample params a :
-  fs_agree fs1 fs2 ->
-  SrcCli.src_cli_train_model _ _ Sp Pa Mo Th (tm_lib_fs Sp Pa Mo Th fs1 from_ids set_space construct new_holder add_obs sample) params a
-  = SrcCli.src_cli_train_model _ _ Sp Pa Mo Th (tm_lib_fs Sp Pa Mo Th fs2 from_ids set_space construct new_holder add_obs sample) params a.
-Proof.
-  intros H. rewrite !C04SourceCli.src_cli_train_model_is_model. unfold Cli.cli_train_model, tm_lib_fs.
-  cbn [Cli.tm_load_screen Cli.tm_from_screen Cli.tm_set_space Cli.tm_construct Cli.tm_new_holder Cli.tm_subset_observed
-       Cli.tm_add_observations Cli.tm_sample].
-  specialize (H (Cli.tm_data a)).
-  destruct (fs1 (Cli.tm_data a)) as [s1|e1], (fs2 (Cli.tm_data a)) as [s2|e2]; cbn [res_bind]; try contradiction.
-  - destruct (views_noninterference s1 s2 H) as (_ & _ & Hp & Ht). now rewrite Hp, Ht.
-  - now subst.
-Qed.
-
-(* with SparseDrugCombo: the model object is (anything the constructor made, the wrapped legacy object), trained by the
-   translated add_observations; what sample(...) is handed holds the model's training trips of the observed rows *)
-Lemma src_cli_train_model_sdc_trains Sp Pa X Th fs from_ids set_space (construct : Pa -> result X) new_holder sample orc r32 params a :
-  SrcCli.src_cli_train_model _ _ Sp Pa (X * legacy) Th
-    (tm_lib_fs Sp Pa (X * legacy) Th fs from_ids set_space (fun pa => dor x <- construct pa; Ok (x, legacy_of [])) new_holder
-       (fun m d => dor w <- SrcTrain.src_add_observations legacy (SrcTrain.src_sdc_add_observations orc r32) (snd m) d; Ok (fst m, w))
-       sample) params a
-  = dor s <- fs (Cli.tm_data a);
-    dor sp <- from_ids (pred_rows_of s);
-    dor x <- construct (set_space params sp);
-    dor holder <- new_holder (Cli.tm_n_samples a);
-    dor t <- train_sdc orc r32 s;
-    dor results <- sample (x, legacy_of t) holder (Cli.tm_seed a) (Some (Cli.tm_n_chains a)) (Some (Cli.tm_chain_index a))
-                     (Some (Cli.tm_n_burnin a)) (Some (Cli.tm_thin a)) (Cli.tm_progress a);
-    Ok [(Cli.tm_output a, results)].
-Proof.
-  rewrite C04SourceCli.src_cli_train_model_is_model. unfold Cli.cli_train_model, tm_lib_fs.
-  cbn [Cli.tm_load_screen Cli.tm_from_screen Cli.tm_set_space Cli.tm_construct Cli.tm_new_holder Cli.tm_subset_observed
-       Cli.tm_add_observations Cli.tm_sample].
-  destruct (fs (Cli.tm_data a)) as [s|e]; cbn [res_bind fst snd]; [|reflexivity].
-  destruct (from_ids (pred_rows_of s)) as [sp|e]; cbn [res_bind]; [|reflexivity].
-  destruct (construct (set_space params sp)) as [x|e]; cbn [res_bind]; [|reflexivity].
-  destruct (new_holder (Cli.tm_n_samples a)) as [hd|e]; cbn [res_bind]; [|reflexivity].
-  unfold train_sdc. destruct (train_input s) as [o|]; cbn [res_bind fst snd]; [|reflexivity].
-  rewrite C04Source.src_sdc_add_is_model.
-  destruct (sdc_add orc r32 [] o) as [t|e]; cbn [res_bind]; reflexivity.
-Qed.
-
-(* ---- calculate_distance_matrix.main: the library's calculate_... is the TRANSLATED function, a holder the list of its
-   samples, the prediction of a sample ANY function of it and the rows' ids ---- *)
-Section CliDist.
-Variables (V : Type) (vzero : V) (visz : V -> bool) (T : Type) (dflt : T).
-Variable predict : T -> list (Z * list Z) -> list Qc.
-
-Definition cd_lib_fs (fs : screen_fs) (load_thetas : Cli.path -> result (list T)) (mk_metric : result (list Qc -> list Qc -> V))
-  : Cli.cd_lib (list trow) (list T) (list Qc -> list Qc -> V) (DistMat.cdm V) :=
-  Cli.mk_cd_lib fs load_thetas (fun l => match l with [] => Err 5 | _ => Ok (concat l) end) mk_metric
-    (fun th me data k n _ =>
-       SrcDistMat.src_calculate_pairwise V vzero visz T (list Qc) (Z.of_nat (length th))
-         (fun i => nth (Z.to_nat i) th dflt) (fun t => predict t (pred_rows_of data)) me k n).
-
-Lemma src_cli_calculate_distance_matrix_noninterference fs1 fs2 load_thetas mk_metric a : fs_agree fs1 fs2 ->
-  SrcCli.src_cli_calculate_distance_matrix _ _ _ _ (cd_lib_fs fs1 load_thetas mk_metric) a
-  = SrcCli.src_cli_calculate_distance_matrix _ _ _ _ (cd_lib_fs fs2 load_thetas mk_metric) a.
-Proof.
-  intros H. rewrite !C07SourceCli.src_cli_calculate_distance_matrix_is_model.
-  unfold Cli.cli_calculate_distance_matrix, cd_lib_fs.
-  cbn [Cli.cd_load_screen Cli.cd_load_thetas Cli.cd_concat_thetas Cli.cd_mk_metric Cli.cd_calculate].
-  specialize (H (Cli.cd_data a)).
-  destruct (fs1 (Cli.cd_data a)) as [s1|e1], (fs2 (Cli.cd_data a)) as [s2|e2]; cbn [res_bind]; try contradiction.
-  - now rewrite (proj1 (proj2 (proj2 (views_noninterference s1 s2 H)))).
-  - now subst.
-Qed.
-End CliDist.
-
-(* ---- calculate_scores.main and select_next_plate.main over C06's library records (score_chunk, select_next_plate,
-   ChunkedScoresHolder.concat = the translated functions) ---- *)
-Definition scores_fs (fs : screen_fs) : Cli.path -> result Scores.screen :=
-  fun p => dor s <- fs p; Ok (scores_screen_of s).
-
-Lemma scores_fs_agree fs1 fs2 : fs_agree fs1 fs2 -> forall p, scores_fs fs1 p = scores_fs fs2 p.
-Proof.
-  intros H p. unfold scores_fs. apply (fs_agree_load scores_screen_of fs1 fs2); [|exact H].
-  intros s1 s2 Hs. exact (proj1 (views_noninterference s1 s2 Hs)).
-Qed.
-
-Lemma src_cli_calculate_scores_noninterference (Th Dm : Type) fs1 fs2 mk_scorer load_thetas concat_thetas load_dist concat_dist mix a :
-  fs_agree fs1 fs2 ->
-  SrcCli.src_cli_calculate_scores _ _ _ _ _ _
-    (C06SourceCliScores.cs_scores_lib Th Dm (scores_fs fs1) mk_scorer load_thetas concat_thetas load_dist concat_dist) mix a
-  = SrcCli.src_cli_calculate_scores _ _ _ _ _ _
-    (C06SourceCliScores.cs_scores_lib Th Dm (scores_fs fs2) mk_scorer load_thetas concat_thetas load_dist concat_dist) mix a.
-Proof.
-  intros H. rewrite !C06SourceCliScores.src_cli_calculate_scores_scores. now rewrite (scores_fs_agree fs1 fs2 H). Qed.
-
-Lemma src_cli_select_next_plate_noninterference fs1 fs2 mk_policy load_scores mix a :
-  fs_agree fs1 fs2 ->
-  SrcCli.src_cli_select_next_plate _ _ _ _ (C06SourceCliScores.sn_scores_lib (scores_fs fs1) mk_policy load_scores) mix a
-  = SrcCli.src_cli_select_next_plate _ _ _ _ (C06SourceCliScores.sn_scores_lib (scores_fs fs2) mk_policy load_scores) mix a.
-Proof.
-  intros H. rewrite !C06SourceCliScores.src_cli_select_next_plate_scores. now rewrite (scores_fs_agree fs1 fs2 H). Qed.
